@@ -72,6 +72,10 @@ func run(pass *analysis.Pass) (any, error) {
 		op := ""
 		if (expr.Op == token.EQL && !val) || (expr.Op == token.NEQ && val) {
 			op = "!"
+			if _, ok := other.(*ast.BinaryExpr); ok {
+				// "!" binds tighter than every binary operator: x < y == false is !(x < y), not !x < y
+				other = &ast.ParenExpr{X: other}
+			}
 		}
 		r := op + report.Render(pass, other)
 		l1 := len(r)
